@@ -471,5 +471,5 @@ def check(col: Collector):
     from .common import shared, construct_tag
     with col.rule():
         shared(col, "C16.R5", [c10._limits],
-               select=lambda o: o.construct.startswith("MeritFunctionForMatch._get_x_limits#"),
+               select=lambda o: o.construct.startswith("MeritFunctionForMatch._get_x_limits#") or construct_tag(o) == "both-limit-sides",
                why="rescale_x maps [0,1] onto the x-limits; limits converted with another factor than the knobs break the inverse pair")
